@@ -33,9 +33,18 @@ func parseObjVectorLine(components []string) (vector3.Float64, error) {
 }
 
 func parseObjTextureLine(components []string) (vector2.Float64, error) {
+	if len(components) < 2 {
+		return vector2.Zero[float64](), errors.New("vt line is empty")
+	}
+
 	parsedX, err := strconv.ParseFloat(strings.TrimSpace(components[1]), 32)
 	if err != nil {
 		return vector2.Zero[float64](), fmt.Errorf("unable to parse tex x: %w", err)
+	}
+
+	// "vt u [v [w]]": v is optional and defaults to 0
+	if len(components) < 3 {
+		return vector2.New(parsedX, 0), nil
 	}
 
 	parsedY, err := strconv.ParseFloat(strings.TrimSpace(components[2]), 32)
